@@ -29,12 +29,14 @@ package fragmentation
 //@   ensures implies(result, r.deleted > old(r.deleted))
 //@   ensures implies(result, exists(i, 0, old(len(r.holes)), old(overlaps(r.holes[i], first, last))))
 //@   ensures implies(!result, forall(i, 0, old(len(r.holes)), !old(overlaps(r.holes[i], first, last))))
+//@   ensures forall(k, 0, old(len(r.holes)), implies(old(overlaps(r.holes[k], first, last)), r.holes[k].deleted))
 //@   loop 1 invariant len(r.holes) >= old(len(r.holes)) && r.deleted >= old(r.deleted) && r.deleted <= (1 << 30) + rangeindex + 1
 //@   loop 1 invariant (arr(r.holes) == old(arr(r.holes)) && off(r.holes) == old(off(r.holes)) && cap(r.holes) == old(cap(r.holes))) || fresh(r.holes)
 //@   loop 1 invariant used == (r.deleted > old(r.deleted)) && implies(!used, len(r.holes) == old(len(r.holes)))
 //@   loop 1 invariant implies(!used, forall(i, 0, old(len(r.holes)), r.holes[i].first == old(r.holes[i].first) && r.holes[i].last == old(r.holes[i].last) && r.holes[i].deleted == old(r.holes[i].deleted)))
 //@   loop 1 invariant implies(!used, forall(i, 0, rangeindex + 1, !old(overlaps(r.holes[i], first, last))))
 //@   loop 1 invariant implies(used, exists(i, 0, rangeindex + 1, old(overlaps(r.holes[i], first, last))))
+//@   loop 1 invariant forall(k, 0, rangeindex + 1, implies(old(overlaps(r.holes[k], first, last)), r.holes[k].deleted))
 //@   modifies r.holes, r.deleted, elemscap(r.holes)
 
 // ---------------------------------------------------------------------------
